@@ -49,6 +49,12 @@ CHECKS = {
  "C05": ("exploration", "reader vs abstract model: independent EDIF writer renders random abstract designs, parsed netlist compared with the model; bundled files via independent s-expression reader",
          "every library/cell/port/instance/property/net/portRef of the text must appear exactly (pin positions in file order, bus bits merged at i-base with gaps), design selects the top, renames carry both names, output well-formed and self-contained.",
          "only reader-implemented constructs are emitted; no comment inside keywordMap / design (reader does not implement them); port base index not compared", "4 C05"),
+ "C04": ("exploration", "write->read differential with a bit-level canonical form on reader-produced netlists (generated + bundled), optional uniquify/flatten/clone, composer options",
+         "canon_verilog (ports, cables, instances with parameters/attributes, (cable,bit)->set of port/instance bits, assigns as multiset) must be identical before compose and after re-parse; composer must not raise and its text must be accepted.",
+         "pin order inside a wire not compared; black boxes relaxed when write_blackbox=False; flatten fenced by an open finding", "4 C04"),
+ "C06": ("exploration", "reader vs abstract model: independent Verilog writer renders random abstract designs; parsed netlist compared bit by bit with the model; bundled .v under a reduced oracle",
+         "ports (direction/width/base), one cable per net, bit k of every connection expression on bit k of the instance port (named and positional), assigns, parameters, attributes, undeclared primitives, single root = top, well-formed and self-contained.",
+         "port ORDER not compared; no empty positional entries; positional maps on not-yet-declared modules fenced by an open finding; bundled files: reduced oracle", "4 C06"),
 }
 NA = {}
 fixes = subprocess.run(["git", "-C", "/repo", "log", "--format=%h %s"], capture_output=True, text=True).stdout.splitlines()
